@@ -246,7 +246,8 @@ def document(rng, dsx, sp, date="2024-01-01T00:00:00", decorate=True, header=Tru
             sd = rng.choice([None, None, "short", ""])
             if sd is not None:
                 a["shortDescription"] = sd
-            ld = rng.choice([None, None, "A longer description."])
+            ld = rng.choice([None, None, "A longer description.",
+                             "First line.\n        Second line, indented.\n    Third line.\n"])
         p_els.append(w.E("Parameter", a, w.E("LongDescription", text=ld) if ld is not None else None))
     c_els = []
     for c in dsx[2]:
@@ -256,7 +257,7 @@ def document(rng, dsx, sp, date="2024-01-01T00:00:00", decorate=True, header=Tru
             sd = rng.choice([None, None, "container", ""])
             if sd is not None:
                 extra["shortDescription"] = sd
-            ld = rng.choice([None, None, "Long text"])
+            ld = rng.choice([None, None, "Long text", "Long text\n    over two lines"])
         c_els.append(w.container(c, extra, ld))
     # the order of the SequenceContainer elements is free in XTCE: derived containers may come before their base,
     # a container before the containers it nests (the loader then parses those first, recursively)
